@@ -953,13 +953,28 @@ func req_newConnBRW(conn net.Conn, brw *bufio.ReadWriter, readBufferSize, writeB
 	return conn != nil && brw == nil && readBufferSize >= 0 && readBufferSize <= 1<<30 && writeBufferSize >= 0 && writeBufferSize <= 1<<30
 }
 
-// the handler setters store closures over the connection (outside the subset): assumed to set their own field only
-//@ trusted (*Conn).SetCloseHandler
+// the handler setters: each sets its own field only (frame), and leaves a handler installed - the caller's, or the
+// default one (a closure over the connection; the default ping handler has its own contract below)
+//@ requires (*Conn).SetCloseHandler
+func req_SetCloseHandler(c *Conn) bool { return c != nil }
+
 //@ assigns (*Conn).SetCloseHandler c.handleClose
-//@ trusted (*Conn).SetPingHandler
+//@ ensures (*Conn).SetCloseHandler C14.handler.installed
+func ens_SetCloseHandler(c *Conn) bool { return c.handleClose != nil }
+
+//@ requires (*Conn).SetPingHandler
+func req_SetPingHandler(c *Conn) bool { return c != nil }
+
 //@ assigns (*Conn).SetPingHandler c.handlePing
-//@ trusted (*Conn).SetPongHandler
+//@ ensures (*Conn).SetPingHandler C14.handler.installed
+func ens_SetPingHandler(c *Conn) bool { return c.handlePing != nil }
+
+//@ requires (*Conn).SetPongHandler
+func req_SetPongHandler(c *Conn) bool { return c != nil }
+
 //@ assigns (*Conn).SetPongHandler c.handlePong
+//@ ensures (*Conn).SetPongHandler C14.handler.installed
+func ens_SetPongHandler(c *Conn) bool { return c.handlePong != nil }
 
 //@ ensures newConnBRW C14.newconn.read-buffer C13.newconn.read-buffer
 func ens_newConnBRW(ret0 *Conn) bool {
